@@ -21,6 +21,48 @@ CHECKS = {
         "Trusted: the reference codec in wsverif/refmodel.py (self-checked against websockets.frames when importable); "
         "transport is a recording fake that accepts every byte; lengths above 2^20 are not generated.",
     ),
+    "C02": (
+        "exploration",
+        "Hypothesis-generated legal frame streams + exhaustive header enumeration, differential against an independent RFC 6455 decoder (values and transport byte accounting)",
+        "Legal server streams (1..N frames, masked and unmasked, all three length encodings up to 200000 bytes, fragments, "
+        "control frames) are built by an independent encoder and read back through recv_frame / recv_data_frame / recv_data "
+        "/ recv; every returned (opcode, fin, payload) and the number of bytes taken from the transport at that moment must "
+        "equal the reference decode. All legal first-two-byte headers are enumerated completely.",
+        "Trusted: refmodel codec and StreamModel; WebSocket object attached to a scripted transport as the repository's tests do; "
+        "non-minimal server length encodings are don't-care and not generated.",
+    ),
+    "C04": (
+        "exploration",
+        "Hypothesis-generated fragmented message streams against a reference reassembly model (StreamModel)",
+        "Streams of 1..5 messages cut into 1..8 fragments (empty fragments included) with ping/pong frames inserted in any gap "
+        "are read with every message-level call, with and without per-fragment delivery; each delivered (opcode, payload, fin) "
+        "must equal the reference model's, in order.",
+        "Trusted: StreamModel; text payloads are valid UTF-8 here (C06 covers invalid text).",
+    ),
+    "C05": (
+        "exploration",
+        "exhaustive enumeration of four finite sub-domains (first byte x mask x length class x state; all 65536 close codes; close-reason UTF-8 classes; all sequencing histories <= 5/6) + Hypothesis mixes, against a reference classifier written from the statement",
+        "Both directions are checked for every case: what the reference classifier rejects must raise WebSocketProtocolException "
+        "at that frame with nothing of it delivered, and everything RFC-legal must be delivered with the model's value. "
+        "The four sub-domains are enumerated completely, so within them the result is exhaustive.",
+        "Trusted: refmodel.frame_violation (the list in the statement) and close_code_may_appear (1000-1003, 1007-1014, 3000-4999).",
+    ),
+    "C06": (
+        "exploration",
+        "exhaustive product of the implementation's UTF-8 automaton with a reference DFA + exhaustive short byte strings + Hypothesis-mutated text messages, oracle = Unicode Table 3-7 recogniser cross-checked with CPython's codec",
+        "Layer 1 enumerates every reachable (implementation state, reference state) pair x 256 bytes; layer 2 every byte string "
+        "of length <= 2 and the 3/4-byte strings around every range boundary (all 3-byte strings in thorough); layer 3 drives "
+        "mutated text through fragmented messages and close reasons with validation on and off.",
+        "Trusted: utf8_wellformed (cross-checked against CPython on every evaluated string). Layer 1 is skipped (and says so) "
+        "if the pure-Python automaton is not in use.",
+    ),
+    "C07": (
+        "exploration",
+        "enumeration of all ping lengths 0..125 at four positions + Hypothesis streams, invariant over the ordered transport read/write log",
+        "The ordered read/write log of the transport is checked: the event following the read that completes each ping is one "
+        "write decoding to a masked FIN pong with the identical payload; no unsolicited writes; values returned equal the model.",
+        "Trusted: refmodel decoder; transport accepts whole writes (short writes: C12).",
+    ),
 }
 
 PENDING_REASON = "check not built yet in this work-in-progress commit (will be claimed once its generator/oracle is committed)"
